@@ -38,6 +38,12 @@ class Undef:
     def __init__(s, why): s.why = why
     def __repr__(s): return f"Undef({s.why})"
 
+class RelPtr:
+    """constant 'address of target minus address of base' (relative lookup tables): only meaningful to llvm.load.relative"""
+    __slots__ = ('target',)
+    def __init__(s, target): s.target = target
+    def __repr__(s): return f"RelPtr({s.target})"
+
 class PV:
     """integer value that is poison when cond (z3 Bool) holds"""
     __slots__ = ('v', 'c', 'why')
